@@ -217,6 +217,14 @@ def apply_op(s, name, args):
     return a
 
 
+def passed_list(name, args):
+    """the content of the array argument of the call as the caller created it (None: the call passes no array)"""
+    for k in ('values', 'series', 'freqs', 'periods'):
+        if k in args and name not in ('smooth_fa_frequencies=',):
+            return args[k]
+    return None
+
+
 def make_sig(cls, values, dt, sff, rt):
     import eqsig
     if cls == 'Signal':
